@@ -356,10 +356,10 @@ def gen_config(pa, rng, quick, identical=False, force=None):
         # long units on a short line: the pivot exclusion zones use the continuum up, the sampler's fallback pivot is drawn
         from pyannote.core import Segment
         c = pa.Continuum()
-        for a in range(4):
-            for s0 in (0, 3, 6):
-                c.add(f"an{a}", Segment(s0 + a % 2, s0 + a % 2 + rng.choice([5, 6, 7])), rng.choice(align.LABELS))
-        n_ann = 4
+        for a in range(5):
+            for s0 in (0, 2, 4):
+                c.add(f"an{a}", Segment(s0 + a % 2, s0 + a % 2 + rng.choice([8, 9, 10])), rng.choice(align.LABELS))
+        n_ann = 5       # zones of 2 x 4.5 around each pivot on a line of 15: from the third pivot on there is no room left
     precision = rng.choice([None, None, "low", 0.3, 0.2, 0.5, 0.15] + ([] if quick else ["medium", 0.05]))
     anns = list(c.annotators)
     gt = None
@@ -372,7 +372,10 @@ def gen_config(pa, rng, quick, identical=False, force=None):
         if comb else pa.PositionalSporadicDissimilarity(delta_empty=rng.choice([1.0, 0.5]))
     if len(c.annotators) >= 4 and c.num_units > 40 and precision not in (None, 0.5, 0.3):
         precision = 0.3
-    cfg = {"mode": mode, "sampler": sampler, "precision": precision, "n": rng.choice([1, 2, 3, 5, 8]), "gt": gt,
+    n_samples = rng.choice([1, 2, 3, 5, 8])
+    if force.get("crowded"):
+        gt, n_samples = None, max(n_samples, 5)       # every annotator gets a pivot (4 pivots on a short line), several samples
+    cfg = {"mode": mode, "sampler": sampler, "precision": precision, "n": n_samples, "gt": gt,
            "seed": rng.randint(0, 2 ** 31 - 1), "identical": identical, "combined": comb,
            "continuum": align.continuum_summary(c)}
     return c, d, cfg
